@@ -5,6 +5,7 @@ import (
 	"go/ast"
 	"go/token"
 	"go/types"
+	"golang.org/x/tools/go/ssa"
 	"math"
 	"math/big"
 	"strings"
@@ -1166,4 +1167,50 @@ func nonceRules(c *Ctx, prop string) {
 		}
 	}
 	c.verdict(rule, rule+"/initNonce", c.P.FuncPos(f), uniq(problems), "16 distinct random bytes are encoded into the caller's buffer")
+}
+
+// headerWriterRules: HandshakeHeaderHTTP.WriteTo renders the extra headers by
+// handing the whole header to net/http's own writer (every value of every key,
+// canonical syntax). A hand-written replacement is not followed: undecided.
+func headerWriterRules(c *Ctx, prop string) {
+	rule := prop + ".extra-headers-writer"
+	c.R.Rule(rule, 1, "HandshakeHeaderHTTP.WriteTo writes the complete http.Header (all values of every key)")
+	f := c.method(rule, ws, "HandshakeHeaderHTTP", "WriteTo")
+	if f == nil {
+		return
+	}
+	delegates := false
+	for _, b := range f.Blocks {
+		for _, in := range b.Instrs {
+			ci, ok := in.(ssa.CallInstruction)
+			if !ok {
+				continue
+			}
+			cal := ci.Common().StaticCallee()
+			if cal == nil {
+				continue
+			}
+			if n := cal.String(); n == "(net/http.Header).Write" || n == "(net/http.Header).WriteSubset" {
+				// the receiver of the call must be the method's own receiver (converted)
+				if len(ci.Common().Args) > 0 {
+					v := ci.Common().Args[0]
+					for {
+						if ct, ok := v.(*ssa.ChangeType); ok {
+							v = ct.X
+							continue
+						}
+						break
+					}
+					if len(f.Params) > 0 && v == ssa.Value(f.Params[0]) {
+						delegates = true
+					}
+				}
+			}
+		}
+	}
+	if delegates {
+		c.R.OK(rule, rule+"/WriteTo", c.P.FuncPos(f), "delegates to (net/http.Header).Write on the receiver")
+	} else {
+		c.R.Unknown(rule, rule+"/WriteTo", c.P.FuncPos(f), "the extra headers are no longer written by net/http's Header.Write: whether every value of a multi-valued key (two Cookie lines, several X-Forwarded-For values) still reaches the peer is not decided")
+	}
 }
